@@ -218,6 +218,29 @@ def rule_r2(ctx):
     if len(f["conv_calls"]) != 1:
         return None
     conv = f["conv_calls"][0]
+    # the input reaches the parser as BYTES (or through tokenize.open): only the parser knows the
+    # encoding of a script (BOM, PEP 263 cookie); a text-mode read with a fixed encoding keeps the BOM
+    # as a character (SyntaxError) and mis-decodes a `# coding: latin-1` file (a different program)
+    for r in f["read_opens"]:
+        rr.instances += 1
+        mode = None
+        if len(r.args) > 1 and isinstance(r.args[1], ast.Constant):
+            mode = r.args[1].value
+        for kw in r.keywords:
+            if kw.arg == "mode" and isinstance(kw.value, ast.Constant):
+                mode = kw.value.value
+        enc = [kw for kw in r.keywords if kw.arg == "encoding"]
+        what = f"input-open@{r.lineno}"
+        if isinstance(mode, str) and "b" in mode:
+            rr.ok(what, sample={"rule": "C16-R2", "input": ast.unparse(r)[:60], "verdict": "bytes: the parser detects the encoding"})
+        elif isinstance(r.func, ast.Attribute) and r.func.attr == "open" and ast.unparse(r.func.value) == "tokenize":
+            rr.ok(what)
+        else:
+            rr.fail(
+                "C16-R2|__main__|input-decoding",
+                f"{mi.rel}:{r.lineno}: the script is read in text mode ({ast.unparse(r)[:70]}): a file with a UTF-8 BOM is refused with `SyntaxError: invalid non-printable character U+FEFF`, a `# -*- coding: latin-1 -*-` file raises UnicodeDecodeError or is converted as a different program (`print(len(\"\u00e9\"))` prints 1 instead of 2), although `python FILE` and the library call on the file's bytes handle both",
+                where=f"{mi.rel}:{r.lineno}", what=what,
+            )
     # the variable holding the result
     res_assign = [n for n in ast.walk(mi.tree) if isinstance(n, ast.Assign) and n.value is conv]
     rr.instances += 1
